@@ -3,10 +3,12 @@ CONSTANTS
   P = 7
   MaxN = 4
   MaxT = 3
-  CoefVals = {0, 2, 3, 6}
+  CoefVals = {0, 2, 6}
   MsgVals = {3, 5}
   Kinds = {"ok", "bad", "wrongmsg", "other", "stale"}
   MaxArrivals = 5
   MaxPerParty = 2
+  MaxInvalid = 5
+VIEW MCView
 INVARIANTS TypeOK C33_Cap C33_OnlyValidStored C33_SeedIffThreshold C33_SeedFunction
 CHECK_DEADLOCK FALSE
